@@ -251,6 +251,8 @@ fn crash_case(tag: u8, payload: &[u8]) -> Option<Value> {
             "what": "crash",
         })),
         4 => Some(json!({"kind": "opaque", "bytes": payload.to_vec(), "what": "crash"})),
+        7 if payload.len() >= 7 => Some(json!({"kind": "longstr", "parser": payload[0], "sym": payload[1], "stem": payload[2], "shape": payload[3],
+            "k": payload[4] as usize | (payload[5] as usize) << 8 | (payload[6] as usize) << 16, "what": "crash"})),
         6 if payload.len() >= 9 => {
             let w = |i: usize| u16::from_le_bytes([payload[1 + 2 * i], payload[2 + 2 * i]]);
             Some(json!({"kind": "chainline", "family": payload[0], "idx": w(0), "a": w(1), "b": w(2), "max": w(3), "what": "crash"}))
